@@ -1,5 +1,6 @@
 (* C17 — XFLATE random access is local. Model: XFlate/Reader.v logs every
    byte range it reads from the underlying ReadSeeker. *)
+From V Require Import XFlate.RTStream XFlate.Total XFlate.OpenLocality.
 From V Require Import Base.Prelude XFlate.Index XFlate.Reader XFlate.Thms XFlate.Refine XFlate.Locality.
 
 (* one Seek touches at most one new range of the underlying stream, and that
@@ -56,3 +57,30 @@ Theorem every_access_is_a_record_extent : forall data T content, honest data T c
   exists extra, r_log (snd (rrun s ops)) = r_log s ++ extra /\ Forall (is_extent T) extra.
 Proof. exact run_log. Qed.
 Print Assumptions every_access_is_a_record_extent.
+
+(* OPENING IS LOCAL, as an equation on the I/O log. For every stream the Writer produced:
+   one read of the last min(64, length) bytes, then each index block exactly once (newest
+   first), then the first item of the stream is prepared - nothing else ... *)
+Theorem xflate_open_reads_footer_and_index_blocks_only : forall rsegs foot sink data,
+  xf_stream rsegs foot sink data ->
+  (Z.of_nat (length sink) < 2 ^ 40)%Z -> (Z.of_nat (length data) < 2 ^ 62)%Z ->
+  exists s1, open_reader sink = inr s1 /\
+    r_log s1 = [((flen sink - fn sink)%N, fn sink)] ++ idx_reads rsegs ++ [(0%N, first_item_size rsegs foot)].
+Proof. exact open_log_written. Qed.
+Print Assumptions xflate_open_reads_footer_and_index_blocks_only.
+
+(* ... and on ANY input an accepted open read at most 64 bytes for the footer and index
+   extents that are pairwise disjoint, strictly descending and below the footer: never more
+   than the file once *)
+Theorem xflate_open_io_bounded_on_any_input : forall data s1,
+  (Z.of_N (flen data) < 2 ^ 63)%Z ->
+  open_reader data = inr s1 ->
+  exists foot ixs c,
+    r_log s1 = [((flen data - fn data)%N, fn data)] ++ rev ixs ++ [(0%N, c)] /\
+    (fn data <= 64 /\ fn data <= flen data /\ 4 <= foot <= fn data)%N /\
+    asc_from 0 ixs /\ Forall (below (zN (flen data - foot))) ixs /\
+    (c <= flen data)%N /\
+    (log_bytes ixs <= flen data - foot)%N /\
+    (log_bytes (r_log s1) <= 64 + (flen data - foot) + c)%N.
+Proof. exact open_log_hostile. Qed.
+Print Assumptions xflate_open_io_bounded_on_any_input.
